@@ -7,6 +7,7 @@
 // increasing (order preserved, no item used twice) and that every source item that is NOT an origin was answered `None`.
 //@trusted VxIter::enumerate (Iterator::enumerate over slice::Iter, prelude/enum_filter_map_env.rs): yields (i, item_i) for every item, in order, i counted from 0 (no overflow: a slice has at most usize::MAX elements)
 //@trusted VxSeqIter::filter_map(f) (Iterator::filter_map, prelude/enum_filter_map_env.rs), exact and order-preserving: f is called on every source item once, in order (so `f.requires` must hold for each of them); the output is the sequence of payloads of the `Some` answers in source order: stated with the ghost witness `vx_origin()` = strictly increasing source indices, `f.ensures(src[origin[j]], Some(out[j]))` for every output position j, `f.ensures(src[i], None)` for every source index i that is no origin.  The closure is `FnMut` in std; the stub takes `Fn` (a closure that mutates captured state does not type-check against it) and says nothing about captured state
+//@trusted VxSeqIter::map(f) (Iterator::map, prelude/enum_filter_map_env.rs): position-wise, `f.ensures(src[j], out[j])` for every j, same length; VxIter<&Option<U>>::flatten() (Iterator::flatten over `&Option` items): the payloads of the `Some` items in order (recursive spec vx_somes).  Neither occurs in the chains under contract today: they are there so that a chain restructured with them still reaches the verifier (and fails a named obligation) instead of stopping at "no such method"
 //@trusted VxSeqIter::collect::<Vec<U>>() (Iterator::collect / FromIterator for Vec, prelude/enum_filter_map_env.rs): the Vec holds exactly the iterator's items, in order
 #[verifier::external_body]
 #[verifier::reject_recursive_types(T)]
@@ -19,6 +20,21 @@ pub open spec fn vx_filter_map_exact<T, U, F: Fn(T) -> Option<U>>(src: Seq<T>, f
     &&& forall|j: int, k: int| 0 <= j < k < origin.len() ==> #[trigger] origin[j] < #[trigger] origin[k]
     &&& forall|j: int| 0 <= j < origin.len() ==> f.ensures((src[#[trigger] origin[j]],), Some(out[j]))
     &&& forall|i: int| 0 <= i < src.len() && !#[trigger] origin.contains(i) ==> f.ensures((src[i],), None::<U>)
+}
+
+// Iterator::flatten over `&Option<U>` items: the payload of every Some, in order
+pub open spec fn vx_somes<'a, U>(s: Seq<&'a Option<U>>) -> Seq<&'a U>
+    decreases s.len(),
+{
+    if s.len() == 0 {
+        Seq::empty()
+    } else {
+        let rest = vx_somes(s.drop_last());
+        match s.last() {
+            Some(x) => rest.push(x),
+            None => rest,
+        }
+    }
 }
 
 // what `collect()` may build from the items of an iterator (FromIterator); only Vec is modelled
@@ -38,6 +54,14 @@ impl<T> VxIter<T> {
     { unimplemented!() }
 }
 
+impl<'a, U> VxIter<&'a Option<U>> {
+    #[verifier::external_body]
+    pub fn flatten(self) -> (r: VxIter<&'a U>)
+        ensures
+            r@ == vx_somes(self@),
+    { unimplemented!() }
+}
+
 impl<T> VxSeqIter<T> {
     pub uninterp spec fn view(&self) -> Seq<T>;
     // ghost: for an iterator returned by `filter_map`, the source index of every item
@@ -49,6 +73,15 @@ impl<T> VxSeqIter<T> {
             forall|i: int| 0 <= i < self@.len() ==> f.requires((#[trigger] self@[i],)),
         ensures
             vx_filter_map_exact(self@, f, r@, r.vx_origin()),
+    { unimplemented!() }
+
+    #[verifier::external_body]
+    pub fn map<U, F: Fn(T) -> U>(self, f: F) -> (r: VxSeqIter<U>)
+        requires
+            forall|i: int| 0 <= i < self@.len() ==> f.requires((#[trigger] self@[i],)),
+        ensures
+            r@.len() == self@.len(),
+            forall|j: int| 0 <= j < r@.len() ==> f.ensures((self@[j],), #[trigger] r@[j]),
     { unimplemented!() }
 
     #[verifier::external_body]
